@@ -58,7 +58,7 @@ macro_rules! gh_obj {
     }};
 }
 
-/// default-parameter forms with a VARIABLE-length key container (Vec<u8> of 32..=64 bytes): every form hands the whole key to BLAKE2b
+/// default-parameter forms with a VARIABLE-length key container (Vec<u8> of 16..=64 bytes, other than 32): every form hands the whole key to BLAKE2b
 fn gh_defaults_veckey(key: &[u8], chunks: &[Vec<u8>]) -> String {
     use dryoc::generichash::GenericHash;
     let all: Vec<u8> = chunks.concat();
@@ -255,7 +255,7 @@ pub fn dispatch(op: &str, a: &[&str]) -> Option<Ans> {
                 (64, 64) => gh_obj!(64, 64, key, chunks),
                 (32, 64) => gh_obj!(32, 64, key, chunks),
                 (48, 24) => gh_obj!(48, 24, key, chunks),
-                (k, 32) if k > 32 && k <= 64 => gh_defaults_veckey(&key, &chunks),
+                (k, 32) if k != 32 && k >= 16 && k <= 64 => gh_defaults_veckey(&key, &chunks),
                 _ => return Some(("n/a".into(), na())),
             };
             (r, na())
